@@ -6,6 +6,7 @@ compared, page by page and number by number, with the real pipeline on every gen
 `page_content_is_what_remains`, `make_page_box_refines`) and the margin boxes (`margin_box_rects`).
 -/
 import WpModel.Props.C14
+import WpModel.Props.C14Exact
 
 namespace Wp.C14
 open Wp Wp.PageDoc Wp.PageBoxes Wp.PageState Wp.PageSel Wp.PageGroups
@@ -33,6 +34,46 @@ private theorem Paired.get {α β : Type} {R : α → β → Prop} : ∀ {l1 : L
 def HasContent (d : Doc) (pt : PageType) (kw : String) : Prop :=
   ∃ items w, (addPageDeclarations d.rules pt kw).get "content" = some (.content (some items), w)
 
+/-- Boolean form of `HasContent`: what `make_box` tests (`box.is_generated`). -/
+def hasContentB (d : Doc) (pt : PageType) (kw : String) : Bool :=
+  match (addPageDeclarations d.rules pt kw).get "content" with
+  | some (.content (some _), _) => true
+  | _ => false
+
+theorem hasContentB_iff (d : Doc) (pt : PageType) (kw : String) : hasContentB d pt kw = true ↔ HasContent d pt kw := by
+  unfold hasContentB HasContent
+  constructor
+  · intro h
+    split at h
+    · rename_i items w hget; exact ⟨items, w, hget⟩
+    · cases h
+  · rintro ⟨items, w, hget⟩; simp [hget]
+
+private theorem mapM_ok_paired {α β : Type} (f : α → Except PyErr β) :
+    ∀ (l : List α) (r : List β), l.mapM f = .ok r → Paired (fun x y => f x = .ok y) l r := by
+  intro l
+  induction l with
+  | nil => intro r h; simp [pure, Except.pure] at h; subst h; exact True.intro
+  | cons a as ih =>
+    intro r h
+    rw [List.mapM_cons] at h
+    simp only [bind, Except.bind, pure, Except.pure] at h
+    split at h
+    · cases h
+    · rename_i b hb
+      split at h
+      · cases h
+      · rename_i bs hbs
+        simp only [Except.ok.injEq] at h; subst h
+        exact ⟨hb, ih bs hbs⟩
+
+private theorem paired_map_snd {α β γ : Type} (R : α → β → Prop) (S : α → γ → Prop) (f : β → γ) :
+    ∀ (l : List α) (r : List β), Paired R l r → (∀ a b, R a b → S a (f b)) → Paired S l (r.map f)
+  | [], [], _, _ => True.intro
+  | a :: as, b :: bs, h, hRS => ⟨hRS a b h.1, paired_map_snd R S f as bs h.2 hRS⟩
+  | [], _ :: _, h, _ => h.elim
+  | _ :: _, [], h, _ => h.elim
+
 private theorem mapM_ok_mem {α β : Type} (f : α → Except PyErr β) :
     ∀ (l : List α) (r : List β), l.mapM f = .ok r → ∀ y ∈ r, ∃ x ∈ l, f x = .ok y := by
   intro l
@@ -56,13 +97,19 @@ private theorem mapM_ok_mem {α β : Type} (f : α → Except PyErr β) :
 
 private theorem marginStyle_spec (d : Doc) (st run : Strings) (pt : PageType) (n : Nat) (secs : List Section) (cs : CState)
     (kw : String) (ms : MStyle) (ws : List String) (h : marginStyle d st run pt n secs cs kw = .ok (ms, ws)) :
-    ms.kw = kw ∧ (ms.generated = true → HasContent d pt kw) := by
+    ms.kw = kw ∧ (ms.generated = true → HasContent d pt kw) ∧ ms.generated = hasContentB d pt kw := by
   unfold marginStyle at h
   simp only [bind, Except.bind, pure, Except.pure] at h
   split at h
-  · simp only [Except.ok.injEq, Prod.mk.injEq] at h
+  · rename_i hnone
+    simp only [Except.ok.injEq, Prod.mk.injEq] at h
     obtain ⟨rfl, _⟩ := h
-    exact ⟨rfl, fun hg => by simp at hg⟩
+    have hb : hasContentB d pt kw = false := by
+      cases hq : hasContentB d pt kw
+      · rfl
+      · obtain ⟨items, w, hget⟩ := (hasContentB_iff d pt kw).mp hq
+        simp [hget] at hnone
+    exact ⟨rfl, fun hg => by simp at hg, hb.symm⟩
   · rename_i items hitems
     split at h
     · cases h
@@ -70,12 +117,13 @@ private theorem marginStyle_spec (d : Doc) (st run : Strings) (pt : PageType) (n
       · cases h
       · simp only [Except.ok.injEq, Prod.mk.injEq] at h
         obtain ⟨rfl, _⟩ := h
-        refine ⟨rfl, fun _ => ?_⟩
-        split at hitems
-        · rename_i x w hget
-          subst hitems
-          exact ⟨items, w, hget⟩
-        · cases hitems
+        have hc : HasContent d pt kw := by
+          split at hitems
+          · rename_i x w hget
+            subst hitems
+            exact ⟨items, w, hget⟩
+          · cases hitems
+        exact ⟨rfl, fun _ => hc, ((hasContentB_iff d pt kw).mpr hc).symm⟩
 /-- The clamp `height = max(min(height, max_height), min_height)` of `block_container_layout` on a margin box. -/
 def clampHeight (q : Placed) : Placed := { q with height := max q.height 0 }
 
@@ -85,7 +133,8 @@ private def PageOutOf (d : Doc) (total : Nat) (p : (PageHead × List Section) ×
   o.head = p.1.1 ∧ o.box = makePageBox (pageStyle p.2.2.1) ∧ o.counters = setPages p.2.2.2 total ∧
   o.bleed = pageBleed p.2.2.1 ∧ o.groups = p.2.1.groups ∧
   ∃ styles placed, (∀ s ∈ styles, s.generated = true → HasContent d p.2.1 s.kw) ∧
-    makeMarginBoxes o.box.geom styles = .ok placed ∧ o.margin.map (·.1) = placed.map clampHeight
+    makeMarginBoxes o.box.geom styles = .ok placed ∧ o.margin.map (·.1) = placed.map clampHeight ∧
+    Paired (fun kw (s : MStyle) => s.kw = kw ∧ s.generated = hasContentB d p.2.1 kw) allKeywords styles
 
 private theorem render_go_spec (d : Doc) (total : Nat) (st run : Strings)
     (ps : List ((PageHead × List Section) × PageType × Cascaded Val × CState)) (n : Nat) (outs : List PageOut)
@@ -112,14 +161,18 @@ private theorem render_go_spec (d : Doc) (total : Nat) (st run : Strings)
           · rename_i tail htail
             simp only [Except.ok.injEq] at h
             subst h
-            refine ⟨⟨rfl, rfl, rfl, rfl, rfl, _, placed, ?_, hplaced, ?_⟩, ih _ _ htail⟩
+            refine ⟨⟨rfl, rfl, rfl, rfl, rfl, _, placed, ?_, hplaced, ?_, ?_⟩, ih _ _ htail⟩
             · intro s hs hg
               obtain ⟨⟨ms, ws⟩, hmem, rfl⟩ := List.mem_map.mp hs
               obtain ⟨kw, _, hkw⟩ := mapM_ok_mem _ _ _ hstyled (ms, ws) hmem
-              obtain ⟨hk, hc⟩ := marginStyle_spec _ _ _ _ _ _ _ _ _ _ hkw
+              obtain ⟨hk, hc, _⟩ := marginStyle_spec _ _ _ _ _ _ _ _ _ _ hkw
               simp only at hk hg ⊢
               rw [hk]; exact hc hg
             · simp [List.map_map, Function.comp_def, clampHeight]
+            · have hpair := mapM_ok_paired _ _ _ hstyled
+              exact paired_map_snd _ _ _ _ _ hpair (fun kw y hy => by
+                obtain ⟨hk, _, hg⟩ := marginStyle_spec _ _ _ _ _ _ _ _ _ _ hy
+                exact ⟨hk, hg⟩)
 
 private theorem pageStates_length (styles : List RawCStyle) (st : CState) (l : List CState)
     (h : pageStates styles st = .ok l) : l.length = styles.length := by
@@ -239,7 +292,7 @@ theorem render_sound (d : Doc) (outs : List PageOut) (h : render d = .ok outs) :
           simp [List.length_zip, hG, hS]
         · intro o ho
           obtain ⟨p, _, hpo⟩ := Paired.exists_left hp o ho
-          obtain ⟨_, hbox, hcnt, hbleed, _, styles, placed, _, hm1, hm2⟩ := hpo
+          obtain ⟨_, hbox, hcnt, hbleed, _, styles, placed, _, hm1, hm2, _⟩ := hpo
           refine ⟨?_, ⟨p.2.2.1, hbox, hbleed⟩, styles, placed, hm1, hm2⟩
           rw [hcnt, hlen']
           exact (pages_counter _ _).1
@@ -317,7 +370,7 @@ theorem render_margin_boxes_have_content (d : Doc) (outs : List PageOut) (h : re
       · have hp := render_go_spec _ _ _ _ _ _ _ h
         intro o ho m hm
         obtain ⟨p, hpmem, hpo⟩ := Paired.exists_left hp o ho
-        obtain ⟨hhead, _, _, _, hgroups, styles, placed, hcontent, hplaced, hmap⟩ := hpo
+        obtain ⟨hhead, _, _, _, hgroups, styles, placed, hcontent, hplaced, hmap, _⟩ := hpo
         obtain ⟨gs, hgs⟩ := zip_map_aligned (docPages d) groups (fun x => pageTypeOf x.1.fst x.snd) _ p hpmem
         have hm1 : m.1 ∈ o.margin.map (·.1) := List.mem_map_of_mem hm
         rw [hmap] at hm1
@@ -334,6 +387,85 @@ theorem render_margin_boxes_have_content (d : Doc) (outs : List PageOut) (h : re
             have hk : s.kw = q.kw := by simpa using List.find?_some hfind
             rw [← hk]; exact hcontent s hs hgen
           · simp at hgen
+
+
+private theorem findStyle_cons_eq (s : MStyle) (ss : List MStyle) (k : String) (h : (s.kw == k) = true) :
+    findStyle (s :: ss) k = s := by
+  unfold findStyle; simp [List.find?_cons, h]
+
+private theorem findStyle_cons_ne (s : MStyle) (ss : List MStyle) (k : String) (h : (s.kw == k) = false) :
+    findStyle (s :: ss) k = findStyle ss k := by
+  unfold findStyle; simp [List.find?_cons, h]
+
+private theorem findStyle_of_paired (P : String → Bool) :
+    ∀ (l : List String) (styles : List MStyle),
+      Paired (fun kw (s : MStyle) => s.kw = kw ∧ s.generated = P kw) l styles →
+      ∀ k ∈ l, (findStyle styles k).generated = P k
+  | [], [], _, k, hk => by simp at hk
+  | k0 :: ks, s :: ss, h, k, hk => by
+    by_cases hq : (s.kw == k) = true
+    · rw [findStyle_cons_eq s ss k hq, h.1.2]
+      have : k0 = k := by rw [← h.1.1]; simpa using hq
+      rw [this]
+    · have hq' : (s.kw == k) = false := by simpa using hq
+      rw [findStyle_cons_ne s ss k hq']
+      have hne : k ≠ k0 := by
+        intro e; rw [e, ← h.1.1] at hq'; simp at hq'
+      have hk' : k ∈ ks := by
+        rcases List.mem_cons.mp hk with e | e
+        · exact absurd e hne
+        · exact e
+      exact findStyle_of_paired P ks ss h.2 k hk'
+  | [], _ :: _, h, _, _ => h.elim
+  | _ :: _, [], h, _, _ => h.elim
+
+/-- **The margin boxes of every page of a rendered document are exactly the margin boxes to which the cascade of the
+`@page` rules selecting that page gives content — each once, in the order of `make_margin_boxes`**: nothing generated
+twice, nothing with content missing, nothing without content present (`make_margin_boxes_exact` transported through
+`marginStyle`, the cascade and the page types of `render`; the document oracle's clauses "generated twice", "has
+content but was not generated", "generated although no rule gives it content", for all documents of the model). -/
+theorem render_margin_boxes_exact (d : Doc) (outs : List PageOut) (h : render d = .ok outs) :
+    ∀ o ∈ outs, ∃ gs : List Group, o.groups = gs.map (fun g => (g.name, g.index)) ∧
+      o.margin.map (fun m => m.1.kw) = allKeywords.filter (hasContentB d (pageTypeOf o.head gs)) := by
+  unfold render at h
+  simp only [bind, Except.bind] at h
+  split at h
+  · cases h
+  · rename_i groups _
+    split at h
+    · cases h
+    · rename_i states _
+      split at h
+      · cases h
+      · have hp := render_go_spec _ _ _ _ _ _ _ h
+        intro o ho
+        obtain ⟨p, hpmem, hpo⟩ := Paired.exists_left hp o ho
+        obtain ⟨hhead, _, _, _, hgroups, styles, placed, _, hplaced, hmap, hpair⟩ := hpo
+        obtain ⟨gs, hgs⟩ := zip_map_aligned (docPages d) groups (fun x => pageTypeOf x.1.fst x.snd) _ p hpmem
+        refine ⟨gs, by rw [hgroups, hgs]; rfl, ?_⟩
+        have hkws : o.margin.map (fun m => m.1.kw) = placed.map (·.kw) := by
+          have := congrArg (List.map (fun q : Placed => q.kw)) hmap
+          simpa [List.map_map, Function.comp_def, clampHeight] using this
+        rw [hkws, make_margin_boxes_exact _ _ _ hplaced, hhead, ← hgs]
+        apply List.filter_congr
+        intro kw hkw
+        exact findStyle_of_paired _ _ _ hpair kw hkw
+
+/-- Non-vacuity: rules (listed in another order) giving content to a corner, to `@bottom-left` and, on the first page
+only, to `@top-left`, and `content: none` to `@top-right`: the margin boxes of the single page are `@top-left`,
+`@bottom-left`, `@top-right-corner`, in the order of the code. -/
+example : (match render { ltr := true, rootBreak := .auto, fontSize := 16
+                          sections := [{ brk := .auto, name := "", sets := [], innerSets := [], lateSets := [] }]
+                          rules := [{ origin := .author, sel := {}, pseudo := "@top-right-corner"
+                                      decls := [("content", .content (some [.text "x"]), false)] },
+                                    { origin := .author, sel := {}, pseudo := "@bottom-left"
+                                      decls := [("content", .content (some [.text "cd"]), false)] },
+                                    { origin := .author, sel := { first := true, spec := (0, 1, 0) }, pseudo := "@top-left"
+                                      decls := [("content", .content (some [.text "ab"]), false)] },
+                                    { origin := .author, sel := {}, pseudo := "@top-right"
+                                      decls := [("content", .content none, false)] }] } with
+    | .ok [o] => o.margin.map (fun m => m.1.kw) == ["@top-left", "@bottom-left", "@top-right-corner"]
+    | _ => false) = true := by decide +kernel
 
 /-- Non-vacuity: one unconditional `@top-left { content: "ab" }` rule — the single page of the document has exactly
 that margin box. -/
